@@ -257,7 +257,18 @@ fn chk_sched_all(kind: &str, mode: &str, data: &[u8], args: &[&str], nbytes: usi
 // C15
 // ---------------------------------------------------------------------------------------------
 fn chk_fault(kind: &str, mode: &str, data: &[u8], args: &[&str]) -> Result<(), String> {
-    let (r0, c0) = scenario(kind, mode, args, Core::new(data.to_vec(), 0));
+    // once with transfers served whole, once in short pieces (what a call still has to read or write when the
+    // fault starts depends on it: a codec's trailing bytes, the rest of a write_all, ...)
+    chk_fault_sched(kind, mode, data, args, &[])?;
+    chk_fault_sched(kind, mode, data, args, &[3, 1, 7, 2, 64])
+}
+fn chk_fault_sched(kind: &str, mode: &str, data: &[u8], args: &[&str], chunks: &[usize]) -> Result<(), String> {
+    let mk = || {
+        let mut c = Core::new(data.to_vec(), 0);
+        c.sched = crate::streams::Schedule { chunks: chunks.to_vec(), pend: vec![] };
+        c
+    };
+    let (r0, c0) = scenario(kind, mode, args, mk());
     let r0 = r0?;
     if r0 == "err" {
         return Err("harness: the fault-free run fails".into());
@@ -268,12 +279,13 @@ fn chk_fault(kind: &str, mode: &str, data: &[u8], args: &[&str]) -> Result<(), S
     let stride = if thorough { if n > 40_000 { n / 20_000 } else { 1 } } else if n > 600 { n / 300 } else { 1 };
     let mut k = 0usize;
     while k < n {
-        let mut core = Core::new(data.to_vec(), 0);
+        let mut core = mk();
         core.fail_from = Some(k);
         core.fail_kind = if thorough { k / stride.max(1) } else { k };
         let (r, _) = scenario(kind, mode, args, core);
+        let frag = if chunks.is_empty() { String::new() } else { format!(" (transfers in pieces of {chunks:?})") };
         match r {
-            Err(e) => return Err(format!("{e} when the stream fails from operation {k} of {n} on")),
+            Err(e) => return Err(format!("{e} when the stream fails from operation {k} of {n} on{frag}")),
             Ok(s) if s != "err" => {
                 // which operation was it?
                 let what = c0_event_at(&c0, k);
@@ -281,7 +293,7 @@ fn chk_fault(kind: &str, mode: &str, data: &[u8], args: &[&str]) -> Result<(), S
                 if lost {
                     return Err(format!("LOSTDROP Directory::to_writer({}) returned Ok although the stream failed from operation {k} of {n} ({what}) on: the encoder's finishing writes happen in Drop", args[0]));
                 }
-                return Err(format!("success reported although the stream failed from operation {k} of {n} ({what}) on"));
+                return Err(format!("success reported although the stream failed from operation {k} of {n} ({what}) on{frag}"));
             }
             Ok(_) => {}
         }
